@@ -9,10 +9,14 @@ the payload v depends on ty:
 """
 from __future__ import annotations
 
+import sys
+
 import z3
 
 from .term import APP, BUILTIN, CASE, CON, CONSTR, DELAY, ERROR, FORCE, LAM, VAR
 
+if hasattr(sys, "set_int_max_str_digits"):
+    sys.set_int_max_str_digits(0)  # integer constants may have thousands of digits
 BV8 = z3.BitVecSort(8)
 ByteSeq = z3.SeqSort(BV8)
 
